@@ -1,39 +1,55 @@
 # C02: block writes are validated as a whole and are all-or-nothing
+import importlib.util, os
+_sp = importlib.util.spec_from_file_location("regs_geom", os.path.join(os.path.dirname(__file__), "regs_geom.py"))
+geom = importlib.util.module_from_spec(_sp)
+_sp.loader.exec_module(geom)
+
 ENC = ["src/registers/core.c"]
 
 INFO = {
     "explanation": "register_block_write (ra_writeable, register_block_touches_hole, ra_malformed_write, "
-                   "register_block_write_unsafe, reg_taint_in_range) executed symbolically over a symbolic table "
-                   "description, arbitrary stored words and touched marks, arbitrary (address, n, words); the "
-                   "caller's buffer is an object that ends exactly after n words so any access beyond it is an "
-                   "array-bounds failure. Oracle: flat address-space reference in the harness (mapped / writable / "
-                   "overlay decodes and satisfies constraint, first failing address per failure class).",
-    "bounds": {"quick": {"NAREA": 2, "NREG": 3, "AWORDS": 6, "NMAX": 5, "addr": "all 32 bits"},
-               "thorough": {"NAREA": 3, "NREG": 4, "AWORDS": 6, "NMAX": 8, "addr": "all 32 bits"}},
-    "outside_bounds": ["more areas / registers / longer blocks than the bound", "areas without read callback",
-                       "area or register addresses above 0x7fffff00 (2^32 wrap of base+size)",
-                       "custom area callbacks that report failure", "whether touched marks may change on a refused write",
+                   "register_block_write_unsafe, reg_taint_in_range) executed symbolically. One query per table "
+                   "GEOMETRY (area bases/sizes, register addresses/word counts: enumerated by the driver, listed under "
+                   "bounds); inside a query the area flags, write-callback presence, backing kind (memory/callback), "
+                   "register types within their size class, constraint kinds and both 64-bit bounds, byte order, all "
+                   "stored words, the touched marks, the request address (all 32 bits), the length n (0..NMAX) and the "
+                   "block words are symbolic. The caller's buffer is an object that ends exactly after n words. "
+                   "Arbitrary pre-state => a single call covers 'evolving table contents'. Oracle: flat address-space "
+                   "reference (mapped / writable / overlay decodes and satisfies its constraint; first failing address "
+                   "per failure class, any class that genuinely applies is accepted).",
+    "bounds": {"quick": {"NAREA": 2, "NREG": 3, "AWORDS": 6, "NMAX": 5, "addr": "all 32 bits",
+                         "geometries": geom.describe("quick")},
+               "thorough": {"NAREA": 3, "NREG": 4, "AWORDS": 6, "NMAX": 8, "addr": "all 32 bits",
+                            "geometries": geom.describe("thorough")}},
+    "outside_bounds": ["geometries other than the enumerated ones (a symbolic geometry was measured at > 40 min per "
+                       "query and abandoned)", "zero-size areas (an empty read-only area makes ra_writeable report "
+                       "READONLY for an address that is not mapped at all; recorded as an observation in DESIGN.md)",
+                       "areas without read callback", "2^32 wrap of base+size",
+                       "custom area callbacks that report failure",
+                       "whether touched marks may change on a refused write",
                        "whether the caller's buffer is left unmodified"],
     "stubs": ["memcpy/memset byte loops", "custom area read/write over a shadow array (always succeed)",
-              "validator callback (bits & mask) == pattern"],
+              "validator callback (bits & mask) == pattern with symbolic mask/pattern"],
     "assumptions": ["linked table state constructed from a well-formed description (C04 checks that register_init "
                     "produces exactly this state)", "little-endian host"],
 }
 
 
 def instances(tier):
-    if tier == "quick":
-        na, nr, aw, nm = 2, 3, 6, 5
-    else:
-        na, nr, aw, nm = 3, 4, 6, 8
-    D = {"NAREA": na, "NREG": nr, "AWORDS": aw, "NMAX": nm}
+    na, nr, aw = geom.dims(tier)
+    nm = 5 if tier == "quick" else 8
     m = max(na, nr)
-    UW = {"memcpy": 2 * na * aw + 2, "memset": 10, "vp_build": m + 3, "vp_desc_wellformed": m + 2,
+    UW = {"memcpy": 2 * max(4, nm) + 2, "memset": 10, "vp_build": m + 3, "vp_desc_wellformed": m + 2,
           "ref_area_of": na + 2, "ref_layout_ok": m + 2, "vp_link_direct": m + 2, "ref_area_first": nr + 2,
-          "vp_custom_read": aw + 1, "vp_custom_write": aw + 1, "vp_snap": nr + 2, "vp_mem_equal": aw + 2,
+          "vp_custom_read": aw + 1, "vp_custom_write": aw + 1, "vp_snap": max(aw, nr) + 2, "vp_mem_equal": aw + 2,
           "harness": max(aw, nm, m) + 3, "ref_decode": 10, "overlay_octets": 6, "reg_overlapped": 6,
           "reg_at": nr + 2, "ra_writeable": na + 2, "ra_malformed_write": nr + 2, "ra_find_area_by_addr": na + 2,
           "register_block_touches_hole": nm + 2, "register_block_write_unsafe": nm + 2,
           "reg_taint_in_range": nr + 2}
-    return [mk("c02_write", "C02/c02.c", [], D, unwind=UW, default_unwind=3, encoded_units=ENC,
-               fp_removal=True, timeout=2400, object_bits=12)]
+    out = []
+    for g in geom.geometries(tier):
+        d = {"NAREA": na, "NREG": nr, "AWORDS": aw, "NMAX": nm}
+        d.update(geom.defines(g))
+        out.append(mk("c02_write_%s" % g[0], "C02/c02.c", [], d, unwind=UW, default_unwind=3, encoded_units=ENC,
+                      fp_removal=True, timeout=3000, object_bits=12))
+    return out
